@@ -259,7 +259,7 @@ def generic_replay(module, rp):
 
 
 def standard_jobs(tier, job_fn, cyclic=False, light=False):
-    """light: quick tier without the configurations whose unsat proofs take more than ~4 minutes"""
+    """light: names of configurations to leave out of the quick tier (unsat proofs that take more than ~4 minutes)"""
     cfgs = []
     for hard, soft in graphs(2):
         for w in (1, 2):       # 3 workers: the queries for 2 tasks come back unknown after 900 s each -- outside the bound
@@ -269,7 +269,8 @@ def standard_jobs(tier, job_fn, cyclic=False, light=False):
     if tier == 'quick':
         cfgs += [(3, [(1, 0), (2, 1)], [], 1), (3, [(2, 0)], [(2, 1)], 1), (3, [(1, 0)], [(2, 1)], 1)]
         if light:
-            cfgs = [c for c in cfgs if not (c[0] == 2 and c[3] == 2) and c[:3] not in ((3, [(1, 0), (2, 1)], []), (3, [(1, 0)], [(2, 1)]))]
+            # light = names of configurations left out of the quick tier of that property (measured unsat proofs > 4 min)
+            cfgs = [c for c in cfgs if cfg_name(Config(*c)) not in light]
     else:
         for hard, soft in graphs(3):
             cfgs.append((3, hard, soft, 1))
